@@ -68,6 +68,18 @@ CHECKS = {
    text="Catalogue of 17 library operations and the 6 handshake endpoints x auth modes, with generated inputs: same stream => identical output, other stream => different output, EVERY draw index failing => the operation reports failure and (handshakes) sends no non-alert record that depends on draws >= i. Complete over the draw indices of each generated instance; sampled over inputs.",
    note="Trusted: the interposer (per-thread deterministic streams, verified active at start). getentropy() is assumed to be the only entropy source of the build.",
    design="4/C18"),
+ "C06": dict(level="exploration", engine="libfuzzer", technique="coverage-guided fuzzing (libFuzzer) of 12 C harnesses against the clang ASan + UBSan(bounds, null, object-size, pointer-overflow) build with exact-size heap buffers, deterministic entropy/clock, dictionary and a seed corpus generated by the library itself (incl. replayable TLCP/TLS 1.2/TLS 1.3 transcripts); peer-stream harnesses run tls_do_handshake against a pre-written socketpair and check TLS_CONNECT invariants; corpus and regression inputs replayed under MemorySanitizer",
+   text="Every decoding, verifying and printing interface of ASN.1, X.509, CMS, PKCS#8, PEM/base64/hex, SM2/SM9, TLS record/handshake/extension code and every handshake byte stream a client or server of each protocol can receive is searched by mutation of valid objects; any sanitizer report, capacity/invariant violation or confirmed 25 s hang is a violation. 22 committed regression inputs are replayed first. Not exhaustive.",
+   note="Trusted: ASan/UBSan-subset/MSan and the harness preconditions (record buffers exactly 5+length bytes, 2048-byte certificate buffers as the callers use, PBKDF2 iteration counts above 2048 not executed, leaks not reported). TLS 1.3 messages after ServerHello are encrypted: their parsers are reached in clear only through fz_tlsrec; deep authenticated states are additionally reached by the in-flight mutation of C10/C19 under ASan.",
+   design="4/C06"),
+ "C15": dict(level="exploration", technique="property-based testing (Hypothesis) through ctypes: objects issued through the library's own builders from generated field sets, compared with an independent reference DER encoding and a library-free parse; Python SM2 model for the signatures; stratified and exhaustive single-bit neighbourhoods; membership oracle for CRL lookup",
+   text="About 1 200 issued certificates/requests/CRLs per quick run (every name/extension builder and criticality, validity across 2049/2050, 0..50 revoked entries); get_details must return the supplied fields, verification must succeed only under the issuer key and ID, every flipped bit (all bits on 24 small objects, ~140 sampled on the others) must break verification, CRL lookup must equal set membership incl. near-miss queries. Sampled, not exhaustive.",
+   note="Trusted: vlib/x509lib.py reference encodings, vlib/ref/der.py, vlib/ref/sm2.py. Inner signature algorithm sm2sign-with-sm3 only; network CRL helpers excluded.",
+   design="4/C15"),
+ "C16": dict(level="exploration", technique="property-based testing (Hypothesis) of the eight top-level cms_* functions with an independent SM2 + OpenSSL SM4-CBC model, eight key provenances (incl. non-normalised Jacobian representatives), field-targeted tampering located with the DER parser, empty/removed signerInfos",
+   text="About 1 950 messages per quick run: 1..4 signers and recipients, content 0..64 KiB; round trips for signed, enveloped, encrypted and signed-and-enveloped data; flipped bits inside content, signatures, encrypted keys, IV and ciphertext must be rejected (full field neighbourhoods for a few messages, sampled otherwise); outsider keys and zero-signer messages must be rejected.",
+   note="Known findings: EncryptedData / EnvelopedData are SM4-CBC without integrity (GM/T 0010 format), so IV and ciphertext bit flips are accepted there; listed in known_findings.json and reported as KNOWN-FINDING. Certificates inside SignedData are not covered by the CMS signature and are not flipped.",
+   design="4/C16"),
 }
 
 NOT_YET = {
@@ -101,6 +113,8 @@ def main():
         "engines": [
             {"name": "hypothesis-ctypes", "path": "vlib/core.py", "serves_properties": [c["property_id"] for c in checks if c["engine"] == "hypothesis-ctypes"],
              "kind_free_text": "Hypothesis 6.168 workers driving sanitizer builds of /repo's working tree through ctypes; entropy/clock interposer preloaded"},
+            {"name": "libfuzzer", "path": "props/C06.py", "serves_properties": [c["property_id"] for c in checks if c["engine"] == "libfuzzer"],
+             "kind_free_text": "libFuzzer (clang 14) campaigns over fuzz/fz_*.c with ASan+UBSan subset, MSan corpus replay, committed regression inputs"},
         ],
         "checks": checks,
         "not_applicable": na,
